@@ -37,6 +37,7 @@ pub mod scen_batch;
 pub mod scen_codec;
 pub mod scen_core;
 pub mod scen_ctors;
+pub mod scen_nonce;
 pub mod scen_gens;
 pub mod scen_recover;
 pub mod scen_transcript;
@@ -76,6 +77,8 @@ fn main() {
             fmrun::c05_run(&opts, &mut out);
             rrun::c05_run(&opts, &mut out);
         },
+        "C13" => scen_nonce::c13(&opts, &mut out),
+        "C14" => scen_nonce::c14(&opts, &mut out),
         "C07" => scen_recover::c07(&opts, &mut out),
         "C08" => scen_recover::c08(&opts, &mut out),
         "C09" => scen_recover::c09(&opts, &mut out),
